@@ -244,7 +244,7 @@ def main():
             print(r0)
             return 1
         sha0 = {}
-        for part in [p for p in translate_diag.PARTS if p in translate_diag.GENERATORS]:
+        for part in translate_diag.PARTS:
             rp = translate_stage.translator_obligation_diag(parts=(part,))
             sha0[part] = rp.get("generated_sha256")
             print(f"{'BASE':5} {'ok':7} {describe(rp):60} part {part} alone   [{rp['wall_s']} s]")
@@ -307,7 +307,12 @@ def main():
                     r = translate_stage.translator_obligation_diag()
                 finally:
                     cleanup_patch(backup)
-                if tch:
+                if tch and r["status"] == "ok" and r.get("generated_sha256") == r0["generated_sha256"]:
+                    # the edit lies inside a translated function but in a branch that no reading reaches (documented as NOT
+                    # covered, e.g. method "kde" / the ParameterBeam image of Screen.reading): the generated text is unchanged
+                    print(f"{pd.parent.name:6} touches {','.join(tch):45} NOT COVERED  only an untranslated branch of the function changed "
+                          f"(generated text identical)", flush=True)
+                elif tch:
                     good = r["status"] in ("translator_failed", "equivalence_broken")
                     bad += 0 if good else 1
                     print(f"{pd.parent.name:6} touches {','.join(tch):45} {'DETECTED' if good else 'MISSED  '}  {describe(r)}", flush=True)
